@@ -398,7 +398,8 @@ def gen_case(ctx: Ctx, rng):
         if s not in ins or rng.random() < 0.15:  # the same input may be listed twice
             ins.append(s)
     rules = gen_rules(rng, im, nph)
-    case = {"prog": prog, "inputs": ins, "rules": rules, "pnr": rng.random() < 0.5, "with_expected": rng.random() < 0.7}
+    case = {"prog": prog, "inputs": ins, "rules": rules, "pnr": rng.random() < 0.5, "with_expected": rng.random() < 0.7,
+            "ps_form": "fn" if rng.random() < 0.2 else "rules"}  # the rule set as a PostSelection or as a predicate
     if case["with_expected"]:
         try:
             sdist = [sampler_dist(c, s) for s in ins]
@@ -828,7 +829,7 @@ class History:
             return ("err", exc_class(e))
 
     def judge(self, obj: str, method: str, seed: int) -> list[str]:
-        ctx, cur = self.ctx, self.cur
+        ctx = self.ctx
         ref = self.ref()
         if ref is None:
             ctx.count("history:reference_failed")
@@ -1236,40 +1237,42 @@ def run(ctx: Ctx) -> None:
         ctx.case(json.dumps({k: v for k, v in case.items() if not k.startswith("_")}), case.get("_useful_reads", 0) > 0)
         if probs:
             _report(ctx, case, probs, lambda cs: _shrink_steps(ctx, cs))
-    # 3. generated configurations
+    # 3. generated configurations and 4. generated histories (oracle-only), interleaved in proportion so that a
+    # time budget cuts both alike; the histories draw from their own stream
     N = ctx.n(140, 3000) if "3" in streams else 0
-    done = 0
-    while done < N and not ctx.out_of_time():
-        case = gen_case(ctx, rng)
-        if case is None:
-            ctx.count("skipped")
+    H = ctx.n(120, 1500) if "4" in streams else 0
+    hrng = pyrandom.Random(f"C05-histories-{ctx.seed}")
+    done = hdone = 0
+    while (done < N or hdone < H) and not ctx.out_of_time():
+        if done < N and (hdone >= H or done * H <= hdone * N):
+            case = gen_case(ctx, rng)
+            if case is None:
+                ctx.count("skipped")
+                continue
+            done += 1
+            probs = run_case(ctx, case)
+            prog = case["prog"]
+            lossy = any(fg.is_lossy(op) for op in prog)
+            her = [op for op in prog if op[0] == "herald"]
+            ctx.count("lossy" if lossy else "lossless")
+            ctx.count("herald_photons>0" if any(h[2] > 0 for h in her) else "no_herald_photons")
+            ctx.count(f"rules:{len(case['rules'])}")
+            ctx.count("pnr" if case["pnr"] else "threshold")
+            ctx.count(f"post_selection_form:{case.get('ps_form', 'rules')}")
+            ctx.case(json.dumps(case), sum(case["inputs"][0]) >= 1 and (lossy or bool(her) or bool(case["rules"])),
+                     sample=case if done <= 2 else None)
+            if probs:
+                _report(ctx, case, probs, lambda cs: _shrink_prog(ctx, cs))
             continue
-        done += 1
-        probs = run_case(ctx, case)
-        prog = case["prog"]
-        lossy = any(fg.is_lossy(op) for op in prog)
-        her = [op for op in prog if op[0] == "herald"]
-        ctx.count("lossy" if lossy else "lossless")
-        ctx.count("herald_photons>0" if any(h[2] > 0 for h in her) else "no_herald_photons")
-        ctx.count(f"rules:{len(case['rules'])}")
-        ctx.count("pnr" if case["pnr"] else "threshold")
-        ctx.case(json.dumps(case), sum(case["inputs"][0]) >= 1 and (lossy or bool(her) or bool(case["rules"])),
-                 sample=case if done <= 2 else None)
-        if probs:
-            _report(ctx, case, probs, lambda cs: _shrink_prog(ctx, cs))
-    # 4. generated histories (oracle-only)
-    H = ctx.n(120, 2500) if "4" in streams else 0
-    done = 0
-    while done < H and not ctx.out_of_time():
-        case = gen_history(ctx, rng)
+        case = gen_history(ctx, hrng)
         if case is None:
             ctx.count("history:skipped")
             continue
-        done += 1
+        hdone += 1
         probs = run_history(ctx, case)
         ctx.count("history:oracle-only")
         ctx.case(json.dumps({k: v for k, v in case.items() if not k.startswith("_")}), case.get("_useful_reads", 0) > 0,
-                 sample={k: v for k, v in case.items() if not k.startswith("_")} if done <= 1 else None)
+                 sample={k: v for k, v in case.items() if not k.startswith("_")} if hdone <= 1 else None)
         if probs:
             _report(ctx, case, probs, lambda cs: _shrink_steps(ctx, cs))
 
